@@ -670,6 +670,18 @@ func simpler(d Dec, op *Op) []Dec {
 				out = append(out, mk(where, sib, at))
 			}
 		}
+	case "neg":
+		for v := 0; v <= d.Val; v++ {
+			for _, f := range negForms {
+				if v == d.Val && f == d.Form {
+					break
+				}
+				if (f == "plain") != (d.Form == "plain") || (f == "inl") != (d.Form == "inl") {
+					continue
+				}
+				out = append(out, Dec{Kind: "neg", Val: v, Form: f})
+			}
+		}
 	case "twin":
 		for v := 0; v <= d.Val; v++ {
 			for _, f := range []string{"fwd", "rev"} {
@@ -858,6 +870,18 @@ func describe(op *Op, d Dec) (desc, feature string) {
 			desc += "; the first directive of the document keeps another node"
 		}
 		return desc, "directive_include_skip (several directives on one node)"
+	case "neg":
+		cl := "?"
+		if d.Val < len(negMenu) {
+			cl = negMenu[d.Val].Class
+		}
+		switch d.Form {
+		case "inl":
+			cl += " inside an inline fragment"
+		case "frag", "nested":
+			cl += " inside a named fragment"
+		}
+		return cl, "fragment inlining (copied values) / variables_extraction"
 	case "twin":
 		cl := "?"
 		if d.Val < len(twinMenu) {
